@@ -28,21 +28,21 @@ Proof.
 Qed.
 
 Lemma echo_spec cp cl s :
-  echo_offers cp cl s = true <->
+  echo_offers (EchoCfg cp cl) s = true <->
   s_proto s = echo_effective_proto cp /\ (cl <> [] -> s_local s = cl).
 Proof.
-  unfold echo_offers.
+  unfold echo_offers. cbn [ec_proto ec_local].
   pose proof (echo_effective_nonempty cp) as N. apply nonempty_true in N. rewrite N. cbn [andb].
   destruct (bytes_eqb (echo_effective_proto cp) (s_proto s)) eqn:E; cbn [negb].
   - apply beq_true in E. rewrite local_ok_spec. split; [intros H; split; auto|intros [_ H]; exact H].
   - apply beq_false in E. split; [discriminate|]. intros [H _]. congruence.
 Qed.
 
-Lemma forwarding_spec cp cl s :
-  forwarding_offers cp cl s = true <->
+Lemma forwarding_spec cp cl tm s :
+  forwarding_offers (FwdCfg cp cl tm) s = true <->
   (cp <> [] -> s_proto s = cp) /\ (cl <> [] -> s_local s = cl).
 Proof.
-  unfold forwarding_offers. destruct cp as [|c cp]; cbn [nonempty andb].
+  unfold forwarding_offers. cbn [fw_proto fw_local]. destruct cp as [|c cp]; cbn [nonempty andb].
   - rewrite local_ok_spec. split; [intros H; split; [intros X; contradiction|exact H]|intros [_ H]; exact H].
   - destruct (bytes_eqb (c :: cp) (s_proto s)) eqn:E; cbn [negb].
     + apply beq_true in E. rewrite local_ok_spec. split; [intros H; split; auto|intros [_ H]; exact H].
@@ -50,10 +50,10 @@ Proof.
       exfalso. apply E. symmetry. apply H. discriminate.
 Qed.
 
-Lemma relay_spec cp cs s :
-  relay_offers cp cs s = true <-> s_proto s = cp /\ s_local s = cs.
+Lemma relay_spec cp cs tp tpr s :
+  relay_offers (RelayCfg cp cs tp tpr) s = true <-> s_proto s = cp /\ s_local s = cs.
 Proof.
-  unfold relay_offers.
+  unfold relay_offers. cbn [rl_proto rl_src].
   destruct (bytes_eqb cp (s_proto s)) eqn:E1; cbn [negb orb].
   2:{ apply beq_false in E1. split; [discriminate|]. intros [H _]. congruence. }
   apply beq_true in E1.
@@ -63,10 +63,10 @@ Proof.
 Qed.
 
 Lemma accept_spec cp cl cr s :
-  accept_offers cp cl cr s = true <->
+  accept_offers (AcceptCfg cp cl cr) s = true <->
   s_proto s = cp /\ (cl <> [] -> s_local s = cl) /\ (cr <> [] -> In (s_remote s) cr).
 Proof.
-  unfold accept_offers.
+  unfold accept_offers. cbn [ac_proto ac_local ac_remotes].
   destruct (bytes_eqb cp (s_proto s)) eqn:E1; cbn [negb].
   2:{ apply beq_false in E1. split; [discriminate|]. intros [H _]. congruence. }
   apply beq_true in E1.
@@ -91,11 +91,11 @@ Proof.
       * intros [H|[H|H]]; [left; exact H|contradiction|right; exact H].
 Qed.
 
-Lemma srpc_spec cps cstrs s lstr :
-  srpc_offers cps cstrs s lstr = true <->
+Lemma srpc_spec cps cstrs del s lstr :
+  srpc_offers (SrpcCfg cps cstrs del) s lstr = true <->
   In (s_proto s) cps /\ (cstrs <> [] -> In lstr cstrs).
 Proof.
-  unfold srpc_offers. destruct (mem (s_proto s) cps) eqn:E; cbn [negb].
+  unfold srpc_offers. cbn [sr_protos sr_peer_strs]. destruct (mem (s_proto s) cps) eqn:E; cbn [negb].
   2:{ split; [discriminate|]. intros [H _]. apply mem_spec in H. congruence. }
   apply mem_spec in E. destruct cstrs as [|c cstrs]; cbn [nonempty].
   - split; [intros _; split; auto; intros X; contradiction|reflexivity].
@@ -104,14 +104,14 @@ Proof.
     + intros [_ H]. right. apply H. discriminate.
 Qed.
 
-Lemma pubsub_spec cp s : pubsub_offers cp s = true <-> s_proto s = cp.
+Lemma pubsub_spec pp cp s : pubsub_offers (PubsubCfg pp cp) s = true <-> s_proto s = cp.
 Proof.
-  unfold pubsub_offers. destruct (bytes_eqb (s_proto s) cp) eqn:E; cbn [negb].
+  unfold pubsub_offers. cbn [pb_proto]. destruct (bytes_eqb (s_proto s) cp) eqn:E; cbn [negb].
   - apply beq_true in E. split; auto.
   - apply beq_false in E. split; [discriminate|contradiction].
 Qed.
 
-Lemma solicit_total s : solicit_offers s <> Panic /\ forall k, solicit_offers s <> Err k.
+Lemma solicit_total c s : solicit_offers c s <> Panic /\ forall k, solicit_offers c s <> Err k.
 Proof.
   unfold solicit_offers. destruct (bytes_eqb (s_proto s) solicit_control_protocol_id).
   - split; [discriminate|intros; discriminate].
@@ -124,10 +124,10 @@ Qed.
 Lemma solicit_control_not_prefixed : has_prefix solicit_control_protocol_id solicit_stream_prefix_h = false.
 Proof. reflexivity. Qed.
 
-Lemma solicit_spec s :
-  (solicit_offers s = Ok SControl <-> s_proto s = solicit_control_protocol_id) /\
-  (forall h, solicit_offers s = Ok (SSolicited h) <-> s_proto s = solicit_stream_prefix_h ++ h) /\
-  (solicit_offers s = Ok SNone <->
+Lemma solicit_spec c s :
+  (solicit_offers c s = Ok SControl <-> s_proto s = solicit_control_protocol_id) /\
+  (forall h, solicit_offers c s = Ok (SSolicited h) <-> s_proto s = solicit_stream_prefix_h ++ h) /\
+  (solicit_offers c s = Ok SNone <->
      s_proto s <> solicit_control_protocol_id /\ forall h, s_proto s <> solicit_stream_prefix_h ++ h).
 Proof.
   unfold solicit_offers.
